@@ -71,11 +71,17 @@ type Interp struct {
 	pending  interface{} // panic value raised in a non-main goroutine, re-raised in main
 	deadlock string
 	schedExp bool // explore schedules at synchronisation points
+	preempts, preemptBound int
 
 	// side tables (fresh per path)
 	mutexes    map[*Value]*mutexState
 	afterFuncs []*afterFunc
 	timers     []*Value // utils.Timer objects in creation order
+	timerFired   []int
+	timerWaiting []int
+	timerStub    bool
+	timerType    types.Type
+	nows         []*Term
 	tickBudget int
 	nowCount   int
 	lastNow    *Term
@@ -90,7 +96,7 @@ type Interp struct {
 
 func newInterp(prog *ssa.Program, ex *Explorer) *Interp {
 	in := &Interp{prog: prog, globals: map[*ssa.Global]*Value{}, ex: ex, maxStep: 3_000_000,
-		mutexes: map[*Value]*mutexState{}, funcsSeen: ex.funcsSeen, tickBudget: -1}
+		mutexes: map[*Value]*mutexState{}, funcsSeen: ex.funcsSeen, tickBudget: -1, preemptBound: 2}
 	main := &G{id: 0, name: "main", wake: make(chan struct{}, 1), started: true}
 	in.gs = []*G{main}
 	in.cur = main
@@ -203,6 +209,14 @@ func (in *Interp) call(fn *ssa.Function, args []Value, env []Value) Value {
 		}()
 		ret = in.run(fr)
 	}()
+	if fn.Name() == "NewTimer" && fn.Pkg != nil && fn.Pkg.Pkg.Path() == modPath+"/utils" {
+		if t, ok := ret.(Tuple); ok {
+			if p, ok := t[0].(*Value); ok && p != nil {
+				in.timerType = fn.Signature.Results().At(0).Type().(*types.Pointer).Elem()
+				in.timerIndex(p)
+			}
+		}
+	}
 	return ret
 }
 
